@@ -10,10 +10,14 @@
    whose types are recorded in the parsed-header flags (`coherent`: the parser sets the flag of every
    header it stores; unused array slots are of the unfingerprinted type HdrNone) - which is proved
    for every message ParseSIPMsg produced, however it was fed (SigCoherent.v).
-   PARTIAL: that the signature is a function of method / order / long-compact form of the first
-   occurrences, the dependence on chunking (C01: chunked = one-shot objects) and the character-class
-   strings themselves are covered by the metamorphic oracle + a reference of the header part. *)
-From Sipsp Require Import Harness Tables SigWalk SigInv SigCoherent.
+   What it is a function of (SigFun.v, C19_signature_is_a_function_of): request / method, the Call-ID
+   text, the From tag text, the parsed-header flags, whether headers were dropped, and - per header, in
+   order - its type, whether its name is one byte long (compact form) and, for Via, the branch signature
+   of its value: two messages that agree on these get the same result (verdict included), whatever
+   the buffers, offsets, other header values and names.  Chunking: C01 (chunked = one-shot objects).
+   PARTIAL: the character-class strings themselves (parameters of the model): metamorphic oracle +
+   a reference of the header part. *)
+From Sipsp Require Import Harness Tables SigWalk SigInv SigCoherent SigFun.
 Theorem C19_replies_yield_no_signature : forall cs ss vs m buf, msg_request m = false ->
   get_msg_sig cs ss vs m buf = Some (msgsig0, EEmpty).
 Proof. exact reply_no_sig. Qed.
@@ -67,6 +71,21 @@ Example C19_parsed_example :
   | _ => False
   end.
 Proof. vm_compute. split; reflexivity. Qed.
+(* ---- what the signature is a function of ------------------------------------------------------------------------------------------- *)
+Theorem C19_signature_is_a_function_of : forall cs ss vs m buf m' buf',
+  same_sig_inputs vs m buf m' buf' -> get_msg_sig cs ss vs m buf = get_msg_sig cs ss vs m' buf'.
+Proof. exact sig_function_of_inputs. Qed.
+Theorem C19_signature_inputs : forall vs m buf m' buf', same_sig_inputs vs m buf m' buf' <->
+  msg_request m = msg_request m' /\ fl_methodno (m_fl m) = fl_methodno (m_fl m') /\
+  bget buf (ci_callid (pv_callid (msg_pv m))) = bget buf' (ci_callid (pv_callid (msg_pv m'))) /\
+  bget buf (fb_tag (pv_from (msg_pv m))) = bget buf' (fb_tag (pv_from (msg_pv m'))) /\
+  hl_pflags (hs_l (m_hs m)) = hl_pflags (hs_l (m_hs m')) /\
+  map (hkey vs buf) (hl_hdrs (hs_l (m_hs m))) = map (hkey vs buf') (hl_hdrs (hs_l (m_hs m'))) /\
+  (hl_cap (hs_l (m_hs m)) <? hl_n (hs_l (m_hs m))) = (hl_cap (hs_l (m_hs m')) <? hl_n (hs_l (m_hs m'))).
+Proof. intros. reflexivity. Qed.
+Theorem C19_header_key : forall vs buf h, hkey vs buf h =
+  (h_type h, pl (h_name h) =? 1, if h_type h =? HdrVia then Some (option_map vs (bget buf (h_val h))) else None).
+Proof. intros. reflexivity. Qed.
 (* which types are "other": exactly those without a signature id (every type, incl. out-of-table ones) *)
 Theorem C19_unfingerprinted_types_have_no_signature_id : forall h, neutral (h_type h) -> snd (hdr_sig_id h) <> EOk.
 Proof. exact neutral_id. Qed.
